@@ -1,5 +1,7 @@
 SPECIFICATION Spec
-CONSTANT Apps = {"A", "B", "C"}
+CONSTANTS
+  Apps = {"A", "B", "C"}
+  MaxMarked = 1
 INVARIANTS Sound Complete
 PROPERTY Terminates
 CHECK_DEADLOCK FALSE
